@@ -179,6 +179,40 @@ fn main() {
 `},
 }
 
+// small inputs (name prefix "small:") are explored one deviation deeper than the others when
+// a single pass is applied
+func init() {
+	c20Inputs = append(c20Inputs, []struct{ name, text string }{
+		{"small:constant-global-initialisers", `let PROD = 3 * 4;
+let FITS = 3 * 4 <= 12;
+let MORE = 2 + 3 * 4 > 5 * 2;
+let SAME = 6 * 2 == 3 * 4;
+let BOTH = true && 2 * 2 < 5;
+let NEG = -(2 * 3);
+fn main() {
+    println(PROD, FITS, MORE, SAME, BOTH, NEG);
+}
+`},
+		{"small:constant-globals-of-other-types", `let WORD = "a" + "b";
+let LIST = [1 * 2, 3];
+let OBJ = new { x: 2 * 3, y: 1 < 2 };
+let HALF = 3.0 / 2.0;
+let REM = 13 % 4 - 12 / 4;
+fn main() {
+    println(WORD, LIST, OBJ.x, OBJ.y, HALF, REM);
+}
+`},
+		{"small:comparisons-in-every-position", `fn le(a: int, b: int) -> bool { a * 2 <= b * 3 }
+fn main() {
+    let a = 2;
+    if a * 3 >= 6 { println("ge"); }
+    while a * 2 < 8 { a += 1; }
+    println(a, le(a, 1), le(1, a), [a * 2 > 3][0], if a * 2 > 3 { "t" } else { "f" });
+}
+`},
+	}...)
+}
+
 // Shipped examples in the property's class (they terminate quickly and print a fixed text);
 // read from the repository at run time, skipped (with a note) if absent or not accepted.
 var c20Examples = []string{"fizzbuzz", "primes", "box", "iterators", "lists", "pow", "matrix", "e"}
@@ -236,6 +270,9 @@ func c20Run(tier string, idx int, r *Result) {
 	bound := 1
 	if tier == "thorough" {
 		bound = 2
+	}
+	if strings.HasPrefix(in.name, "small:") && passes == 1 && (tier == "quick" || strings.HasPrefix(in.name, "small:constant")) {
+		bound++ // one pass over a small input: one deviation deeper
 	}
 	seenText := map[uint64]bool{}
 	reported := map[string]bool{}
